@@ -7,6 +7,7 @@ from . import engine as E
 from .engine import is_sym, z_and, z_or, z_not, z_ite, RustPanic, Inconclusive
 
 ENG = None  # current engine, set by interp.run
+CALL_STACK = []  # qualified names of the Rust functions currently executing
 
 
 def eng():
